@@ -161,6 +161,9 @@ def generate(ck):
             descs.append({"kind": "twophase", "params": p, "Sw": swc * frac})
             if swc < 0.9:
                 descs.append({"kind": "twophase-reject", "params": p, "Sw": swc + float(rng.choice([1e-6, 1e-2, 0.1]))})
+    for g in range(3 if ck.tier == "quick" else 120):
+        # four parameter sets evaluated from four threads at once
+        descs.append({"kind": "threads", "params": _params(rng), "sets": [_params(rng) for _ in range(4)], "sats": _simplex(rng, 12).tolist()})
     for k, d in enumerate(descs):
         d["order"] = k % 4  # field order of the saturation records, see ORDERS
     return descs
@@ -237,6 +240,20 @@ def run_case(ck, desc):
     params = RelPermParams(*desc["params"])
     kind = desc["kind"]
     EVENTS.clear()
+    if kind == "threads":
+        import functools
+
+        recs = _records(desc["sats"], desc.get("order", 0))
+        groups = [[functools.partial(lambda p_, r_: np.column_stack([np.asarray(relative_permeabilities(r_, p_)[n_], dtype=float) for n_ in NAMES]), RelPermParams(*ps), recs[: 1 + j % len(desc["sats"])]) for j in range(60)] for ps in desc["sets"]]
+        bad, errs, n_calls = instrument.concurrent_vs_alone(groups)
+        mob = judge_events(ck, desc)  # every concurrent (and repeated) evaluation against the bounds
+        ck.count("concurrent_evaluations", n_calls)
+        ck.count("thread_groups")
+        for k_, i_, a, b in bad[:3]:
+            ck.violation("threads-same-value-as-the-call-made-alone", {"thread": k_, "concurrent": np.asarray(a).tolist()[:2], "alone": np.asarray(b).tolist()[:2], "n_differing": len(bad)}, desc)
+        if errs:
+            ck.violation("threads-every-call-returns", {"errors": [e[2] for e in errs[:3]]}, desc)
+        return mob > 0, {"concurrent_calls": n_calls}
     with TRAP:
         if kind == "records":
             relative_permeabilities(_records(desc["sats"], desc.get("order", 0)), params)
